@@ -2,7 +2,7 @@
    `eval` mirrors the dispatch of the Python operators (kind tests, shape guards, which
    construction is used); `deval` is the dense specification of the same expression. *)
 From Coq Require Import List Arith Bool ZArith.
-From TT Require Import RingSig SumN Mat Dense Core Arith.
+From TT Require Import RingSig SumN Mat Dense Core Arith MatOps.
 Import ListNotations.
 
 (* scalar operand kinds, as the Python dispatch sees them *)
@@ -12,7 +12,8 @@ Inductive errc := EShape | ERank | ETypes | EArgs | ENotImpl | ETorch | EPyType 
                 | EPyAttr | EPyIndex | EPyValue | EModel (* outside the modelled domain *).
 
 Inductive opn :=
-  | OAdd | OSub | OMul | ONeg | OPos | ORAdd | ORSub | ORMul | ODiv | OKron | OOnes | OZeros | ORank1.
+  | OAdd | OSub | OMul | ONeg | OPos | ORAdd | ORSub | ORMul | ODiv | OKron | OOnes | OZeros | ORank1
+  | OMatmul | OTr | OEye.
 
 Section Expr.
 Context {R : Type} {RO : RingOps R}.
@@ -44,8 +45,42 @@ Definition tt_binop (plain bc : tt R -> tt R -> tt R) (x y : tt R) : val :=
   else if (length x <? length y)%nat then VErr EShape
   else if bcast_ok (shape x) y then VT (bc x y) else VErr EShape.
 
+(* TT-matrix + - * : equal M and N required *)
+Definition ttm_binop (f : ttm R -> ttm R -> ttm R) (x y : ttm R) : val :=
+  if eqb_ln (shapeM x) (shapeM y) && eqb_ln (shapeN x) (shapeN y) then VM (f x y) else VErr EShape.
+
+(* TT.__matmul__ *)
+Definition matmul_dispatch (a b : val) : val :=
+  match a, b with
+  | VM A, VD X =>
+      let d := length A in
+      if (d <=? length (dshape X))%nat && eqb_ln (shapeN A) (skipn (length (dshape X) - d) (dshape X))
+      then VD (dense_matvec A X) else VErr EShape
+  | VM A, VT x => if eqb_ln (shapeN A) (shape x) then VT (matvec A x) else VErr EShape
+  | VM A, VM B => if eqb_ln (shapeN A) (shapeM B) then VM (matmat A B) else VErr EShape
+  | VT x, VM A => if eqb_ln (shape x) (shapeM A) then VT (vecmat x A) else VErr EShape
+  | VT _, VT _ => VErr EArgs
+  | _, _ => VErr EModel
+  end.
+
 Definition apply_op (o : opn) (args : list val) (ia : list (list nat)) : val :=
   match o, args with
+  | OAdd, [VM x; VM y] => ttm_binop add4 x y
+  | OSub, [VM x; VM y] => ttm_binop sub4 x y
+  | OMul, [VM x; VM y] => ttm_binop mul4 x y
+  | OAdd, [VM x; VS _ s] | ORAdd, [VM x; VS _ s] => VM (add_scalar4 x s)
+  | OSub, [VM x; VS _ s] => VM (sub_scalar4 x s)
+  | ORSub, [VM x; VS _ s] => VM (rsub_scalar4 x s)
+  | OMul, [VM x; VS _ s] | ORMul, [VM x; VS _ s] => VM (mul_scalar4 x s)
+  | ODiv, [VM x; VS _ sinv] => VM (div_scalar4 x sinv)
+  | ONeg, [VM x] => VM (neg4 x)
+  | OPos, [VM x] => VM x
+  | OAdd, [VT _; VM _] | OAdd, [VM _; VT _] | OSub, [VT _; VM _] | OSub, [VM _; VT _]
+  | OMul, [VT _; VM _] | OMul, [VM _; VT _] => VErr ETypes
+  | OMatmul, [a; b] => matmul_dispatch a b
+  | OTr, [VM x] => VM (transpose x)
+  | OTr, [VT _] => VErr EArgs
+  | OEye, [] => match ia with [ns] => VM (eye_ttm ns) | _ => VErr EModel end
   | OAdd, [VT x; VT y] => tt_binop add add_bcast x y
   | OAdd, [VT x; VS _ s] => VT (add_scalar x s)
   | ORAdd, [VT x; VS _ s] => VT (add_scalar x s)
@@ -78,6 +113,14 @@ Fixpoint eval (env : list val) (e : exp) : val :=
 
 (* ---- dense specification of the same expressions ---- *)
 Definition dapply_op (o : opn) (args : list val) (ia : list (list nat)) : val :=
+  match o, args, ia with
+  | OMatmul, [VD A; VD x], [[d; 0]] => VD (dmatvec d A x)
+  | OMatmul, [VD x; VD A], [[d; 1]] => VD (dvecmat d x A)
+  | OMatmul, [VD A; VD B], [[d; 2]] => VD (dmatmat d A B)
+  | OMatmul, [VD A; VD X], [[d; 3]] => VD (dmatvec_batch d A X)
+  | OTr, [VD A], [[d]] => VD (dtranspose d A)
+  | OEye, [], [ns] => VD (deye ns)
+  | _, _, _ =>
   match o, args with
   | OAdd, [VD a; VD b] => VD (dmap2 radd a b)
   | OAdd, [VD a; VS _ s] | ORAdd, [VD a; VS _ s] => VD (dmap (fun v => radd v s) a)
@@ -94,7 +137,7 @@ Definition dapply_op (o : opn) (args : list val) (ia : list (list nat)) : val :=
   | OOnes, [] => match ia with [ns] => VD (dconst ns rI) | _ => VErr EModel end
   | OZeros, [] => match ia with [ns] => VD (dconst ns rO) | _ => VErr EModel end
   | _, _ => VErr EModel
-  end.
+  end end.
 
 Definition to_denseM_l (x : ttm R) : dense R :=
   mkD (shapeM x ++ shapeN x)
